@@ -27,7 +27,8 @@ class Gen:
     """top-down typed generator; all randomness through `draw`"""
 
     def __init__(self, draw, maxnodes=12, maxdepth=5, maxloops=2, ops=None, dtypes=('bool', 'int', 'float', 'complex'),
-                 allow_args=True, maxlen=4, family_bias=0.4, differentiable=False):
+                 allow_args=True, maxlen=4, family_bias=0.4, differentiable=False, arg_bias=1):
+        self.arg_bias = arg_bias
         self.draw = draw
         self.nodes = []
         self.args = {}
@@ -104,7 +105,7 @@ class Gen:
     def leaf(self, dtype, shape):
         kinds = ['const', 'const']
         if self.allow_args and dtype in ('float', 'int', 'complex') and not (self.differentiable and dtype == 'int'):
-            kinds += ['arg', 'arg']
+            kinds += ['arg', 'arg'] * self.arg_bias
         if self.differentiable and dtype in ('float', 'complex'):
             kinds += ['arg', 'arg']
         if not self.differentiable:
@@ -558,9 +559,9 @@ class Gen:
 
 @st.composite
 def programs(draw, maxnodes=12, maxdepth=5, maxloops=2, nouts=1, dtypes=('bool', 'int', 'float', 'complex'), ops=None,
-             out_dtypes=None, maxdim=3, differentiable=False, allow_args=True, family_bias=0.4):
+             out_dtypes=None, maxdim=3, differentiable=False, allow_args=True, family_bias=0.4, arg_bias=1):
     g = Gen(draw, maxnodes=maxnodes, maxdepth=maxdepth, maxloops=maxloops, ops=ops, dtypes=dtypes, differentiable=differentiable,
-            allow_args=allow_args, family_bias=family_bias)
+            allow_args=allow_args, family_bias=family_bias, arg_bias=arg_bias)
     outs = []
     k = draw(st.integers(1, nouts))
     for i in range(k):
